@@ -41,9 +41,9 @@ func (g *Gater) ok(p peer.ID) bool {
 	defer g.mu.Unlock()
 	return !g.blocked[p]
 }
-func (g *Gater) InterceptPeerDial(p peer.ID) bool                    { return g.ok(p) }
-func (g *Gater) InterceptAddrDial(p peer.ID, _ ma.Multiaddr) bool    { return g.ok(p) }
-func (g *Gater) InterceptAccept(network.ConnMultiaddrs) bool         { return true }
+func (g *Gater) InterceptPeerDial(p peer.ID) bool                 { return g.ok(p) }
+func (g *Gater) InterceptAddrDial(p peer.ID, _ ma.Multiaddr) bool { return g.ok(p) }
+func (g *Gater) InterceptAccept(network.ConnMultiaddrs) bool      { return true }
 func (g *Gater) InterceptSecured(_ network.Direction, p peer.ID, _ network.ConnMultiaddrs) bool {
 	return g.ok(p)
 }
